@@ -20,19 +20,72 @@ import (
 type fileState struct {
 	exists *Term
 	ln     *Term
-	data   *Term
+	data   *Term   // SMT array representation (nil when element-wise)
+	elems  *ArrayV // element-wise representation: concrete capacity, symbolic length ln
 }
 
 func (e *Engine) getFile(st *State, path string) fileState {
 	if v, ok := st.ghost["file:"+path]; ok {
 		s := v.(*StructV)
-		return fileState{s.F[0].(*Term), s.F[1].(*Term), s.F[2].(*Term)}
+		f := fileState{exists: s.F[0].(*Term), ln: s.F[1].(*Term)}
+		if t, ok := s.F[2].(*Term); ok {
+			f.data = t
+		} else {
+			f.elems = s.F[2].(*ArrayV)
+		}
+		return f
 	}
-	return fileState{False(), BVu(0, 64), ConstArr(8, BVu(0, 8))}
+	return fileState{exists: False(), ln: BVu(0, 64), elems: &ArrayV{T: types.Typ[types.Uint8]}}
 }
 
 func (e *Engine) putFile(st *State, path string, f fileState) {
-	st.ghost["file:"+path] = &StructV{F: []Value{f.exists, f.ln, f.data}}
+	var d Value = f.data
+	if f.data == nil {
+		d = f.elems
+	}
+	st.ghost["file:"+path] = &StructV{F: []Value{f.exists, f.ln, d}}
+}
+
+// truncated returns f with length 0 (and no stale content) under guard g.
+func (f fileState) truncated(g *Term) fileState {
+	nf := fileState{exists: f.exists, ln: Ite(g, BVu(0, 64), f.ln), data: f.data}
+	if f.data == nil {
+		if g.IsTrue() {
+			nf.elems = &ArrayV{T: types.Typ[types.Uint8]}
+		} else {
+			es := make([]Value, len(f.elems.E))
+			for k, b := range f.elems.E {
+				es[k] = Ite(g, BVu(0, 8), b.(*Term))
+			}
+			nf.elems = &ArrayV{E: es, T: types.Typ[types.Uint8]}
+		}
+	} else {
+		nf.data = Ite(g, ConstArr(8, BVu(0, 8)), f.data)
+	}
+	return nf
+}
+
+// arrayOf returns the SMT-array view of the file content.
+func (f fileState) arrayOf() *Term {
+	if f.data != nil {
+		return f.data
+	}
+	arr := ConstArr(8, BVu(0, 8))
+	for k, b := range f.elems.E {
+		arr = Store(arr, BVu(uint64(k), 64), b.(*Term))
+	}
+	return arr
+}
+
+// byteAt reads one byte of the content.
+func (f fileState) byteAt(idx *Term) *Term {
+	if f.data != nil {
+		return Select(f.data, idx)
+	}
+	if len(f.elems.E) == 0 {
+		return BVu(0, 8)
+	}
+	return readPath(f.elems, []Step{{Field: -1, Idx: idx}}).(*Term)
 }
 
 // diskEvent returns the guard under which the next mutating event takes effect.
@@ -63,9 +116,70 @@ func errIf(c *Term, err *IfaceV) *IfaceV {
 
 // fileSlice returns a fresh []byte holding the file content.
 func (e *Engine) fileSlice(st *State, f fileState) *SliceV {
+	if f.data == nil {
+		es := make([]Value, len(f.elems.E))
+		copy(es, f.elems.E)
+		l := e.alloc(st, &ArrayV{E: es, T: types.Typ[types.Uint8]})
+		return singleSlice(l, BVu(0, 64), f.ln, f.ln)
+	}
 	b := &BigArrV{N: f.ln, Elem: types.Typ[types.Uint8], Leaves: []*Term{f.data}}
 	l := e.alloc(st, b)
 	return singleSlice(l, BVu(0, 64), f.ln, f.ln)
+}
+
+// fileWrite writes the slice at offset at under guard g and returns the new state and the byte count.
+func (e *Engine) fileWrite(st *State, f fileState, at *Term, s *SliceV, g *Term, site string) (fileState, *Term) {
+	if len(s.A) != 1 {
+		panic(unsupported("file write of multi-alternative slice at " + site))
+	}
+	al := s.A[0]
+	if al.Base == nil {
+		return f, BVu(0, 64)
+	}
+	n := al.Len
+	end := Add(at, n)
+	if f.data == nil {
+		// element-wise when the written extent has a concrete bound
+		_, srcBig := e.bigLeaves(st, al.Base)
+		nb, ok1 := e.lenBound(st, al)
+		ab, ok2 := maxConst(at)
+		if !srcBig && ok1 && ok2 && ab+nb <= 1<<20 {
+			es := f.elems.E
+			if ab+nb > len(es) {
+				ne := make([]Value, ab+nb)
+				copy(ne, es)
+				for k := len(es); k < len(ne); k++ {
+					ne[k] = BVu(0, 8)
+				}
+				es = ne
+			} else {
+				es = append([]Value(nil), es...)
+			}
+			atC, atIsC := at.ConstInt()
+			for k := 0; k < nb; k++ {
+				K := BVu(uint64(k), 64)
+				b := e.sliceGet(st, al, K).(*Term)
+				wg := And(g, Ult(K, n))
+				if atIsC {
+					es[atC+k] = Ite(wg, b, es[atC+k].(*Term))
+					continue
+				}
+				pos := Add(at, K)
+				for q := range es {
+					c := And(wg, Eq(pos, BVu(uint64(q), 64)))
+					if !c.IsFalse() {
+						es[q] = Ite(c, b, es[q].(*Term))
+					}
+				}
+			}
+			nl := Ite(And(g, Ult(f.ln, end)), end, f.ln)
+			return fileState{exists: f.exists, ln: nl, elems: &ArrayV{E: es, T: types.Typ[types.Uint8]}}, n
+		}
+		f = fileState{exists: f.exists, ln: f.ln, data: f.arrayOf()}
+	}
+	nd, _ := e.writeBytesAt(st, f.data, at, s, site)
+	nl := Ite(And(g, Ult(f.ln, end)), end, f.ln)
+	return fileState{exists: f.exists, ln: nl, data: Ite(g, nd, f.data)}, n
 }
 
 // appendBytes returns data with the slice's bytes written at offset at.
@@ -215,10 +329,10 @@ func installEnvStubs(e *Engine) {
 		f := e.getFile(st, path)
 		// event 1: open(O_CREATE|O_TRUNC); event 2: write
 		g1 := e.diskEvent(st, "open-create-trunc "+path)
-		f = fileState{Or(f.exists, g1), Ite(g1, BVu(0, 64), f.ln), f.data}
+		f.exists = Or(f.exists, g1)
+		f = f.truncated(g1)
 		g2 := e.diskEvent(st, "write "+path)
-		nd, n := e.writeBytesAt(st, f.data, BVu(0, 64), a[1].(*SliceV), c.site)
-		f = fileState{f.exists, Ite(g2, n, f.ln), Ite(g2, nd, f.data)}
+		f, _ = e.fileWrite(st, f, BVu(0, 64), a[1].(*SliceV), g2, c.site)
 		e.putFile(st, path, f)
 		return nilIface()
 	}
@@ -252,12 +366,12 @@ func installEnvStubs(e *Engine) {
 		okc := f.exists
 		if flags&oCREATE != 0 {
 			g := e.diskEvent(st, "open-create "+path)
-			f = fileState{Or(f.exists, g), f.ln, f.data}
+			f.exists = Or(f.exists, g)
 			okc = True()
 		}
 		if flags&oTRUNC != 0 {
 			g := e.diskEvent(st, "truncate "+path)
-			f = fileState{f.exists, Ite(g, BVu(0, 64), f.ln), f.data}
+			f = f.truncated(g)
 		}
 		e.putFile(st, path, f)
 		h := e.newHandle(st, path, flags&oAPPEND != 0)
@@ -268,7 +382,8 @@ func installEnvStubs(e *Engine) {
 		path := mustConcreteStr(a[0], "Create path")
 		f := e.getFile(st, path)
 		g := e.diskEvent(st, "create-trunc "+path)
-		f = fileState{Or(f.exists, g), Ite(g, BVu(0, 64), f.ln), f.data}
+		f.exists = Or(f.exists, g)
+		f = f.truncated(g)
 		e.putFile(st, path, f)
 		return &TupleV{E: []Value{e.newHandle(st, path, false), nilIface()}}
 	}
@@ -289,11 +404,9 @@ func installEnvStubs(e *Engine) {
 		if h.append {
 			at = f.ln
 		}
-		nd, n := e.writeBytesAt(st, f.data, at, a[1].(*SliceV), c.site)
-		end := Add(at, n)
-		nl := Ite(Ult(f.ln, end), end, f.ln)
-		e.putFile(st, h.path, fileState{f.exists, Ite(g, nl, f.ln), Ite(g, nd, f.data)})
-		e.storeLoc(st, extendLoc(loc, Step{Field: 0}), end, True())
+		nf, n := e.fileWrite(st, f, at, a[1].(*SliceV), g, c.site)
+		e.putFile(st, h.path, nf)
+		e.storeLoc(st, extendLoc(loc, Step{Field: 0}), Add(at, n), True())
 		return &TupleV{E: []Value{n, nilIface()}}
 	}
 	S["(*os.File).WriteAt"] = func(e *Engine, st *State, c *callInfo, a []Value) Value {
@@ -301,14 +414,19 @@ func installEnvStubs(e *Engine) {
 		f := e.getFile(st, h.path)
 		g := e.diskEvent(st, "pwrite "+h.path)
 		at := argTerm(a[2])
-		nd, n := e.writeBytesAt(st, f.data, at, a[1].(*SliceV), c.site)
-		// bytes between the old end and the write offset read as zero
-		TF.fresh++
-		j := Var(fmt.Sprintf("j!%d", TF.fresh), 64)
-		zf := Lambda(j, Ite(And(Ule(f.ln, j), Ult(j, at)), BVu(0, 8), Select(nd, j)))
-		end := Add(at, n)
-		nl := Ite(Ult(f.ln, end), end, f.ln)
-		e.putFile(st, h.path, fileState{f.exists, Ite(g, nl, f.ln), Ite(g, zf, f.data)})
+		if f.data == nil {
+			if _, ok := maxConst(at); !ok {
+				f = fileState{exists: f.exists, ln: f.ln, data: f.arrayOf()}
+			}
+		}
+		if f.data != nil {
+			// bytes between the old end and the write offset read as zero
+			TF.fresh++
+			j := Var(fmt.Sprintf("j!%d", TF.fresh), 64)
+			f.data = Lambda(j, Ite(And(Ule(f.ln, j), Ult(j, at)), BVu(0, 8), Select(f.data, j)))
+		}
+		nf, n := e.fileWrite(st, f, at, a[1].(*SliceV), g, c.site)
+		e.putFile(st, h.path, nf)
 		return &TupleV{E: []Value{n, nilIface()}}
 	}
 	S["(*os.File).ReadAt"] = func(e *Engine, st *State, c *callInfo, a []Value) Value {
@@ -329,7 +447,7 @@ func installEnvStubs(e *Engine) {
 		got := Ite(Ult(avail, d.Len), avail, d.Len)
 		for k := 0; k < n; k++ {
 			K := BVu(uint64(k), 64)
-			e.sliceSet(st, d, K, Select(f.data, Add(at, K)), Ult(K, got))
+			e.sliceSet(st, d, K, f.byteAt(Add(at, K)), Ult(K, got))
 		}
 		eof := e.eofErr(st)
 		return &TupleV{E: []Value{got, errIf(Ult(got, d.Len), eof)}}
@@ -347,7 +465,7 @@ func installEnvStubs(e *Engine) {
 		got := Ite(Ult(avail, d.Len), avail, d.Len)
 		for k := 0; k < n; k++ {
 			K := BVu(uint64(k), 64)
-			e.sliceSet(st, d, K, Select(f.data, Add(pos, K)), Ult(K, got))
+			e.sliceSet(st, d, K, f.byteAt(Add(pos, K)), Ult(K, got))
 		}
 		e.storeLoc(st, extendLoc(loc, Step{Field: 0}), Add(pos, got), True())
 		return &TupleV{E: []Value{got, errIf(And(Eq(got, BVu(0, 64)), Not(Eq(d.Len, BVu(0, 64)))), e.eofErr(st))}}
@@ -503,12 +621,12 @@ func installLibStubs(e *Engine) {
 		st.assume(Ule(ln, BVu(uint64(mx), 64)))
 		varBounds[name+".len"] = mx
 		e.bounds["len(file "+name+")"] = fmt.Sprintf("0..%d bytes, arbitrary content", mx)
-		e.putFile(st, path, fileState{True(), ln, arr})
+		e.putFile(st, path, fileState{exists: True(), ln: ln, data: arr})
 		return nil
 	}
 	S["verif:verifFileAbsent"] = func(e *Engine, st *State, c *callInfo, a []Value) Value {
 		path := mustConcreteStr(a[0], "verifFileAbsent path")
-		e.putFile(st, path, fileState{False(), BVu(0, 64), ConstArr(8, BVu(0, 8))})
+		e.putFile(st, path, fileState{exists: False(), ln: BVu(0, 64), elems: &ArrayV{T: types.Typ[types.Uint8]}})
 		return nil
 	}
 }
